@@ -256,8 +256,8 @@ def encode_path_rules(ctx):
                        found=f"{what} in {ast.unparse(n)[:80]}", witness=cg.path_to(reach, fq))
         else:
             R.ok("C02-D2 order preserving encode path", fq)
-    if dumps_sites < 2:
-        raise AnalysisError("fewer than 2 cbor2.dumps sites found on the encode path (resolver lost them)")
+    if dumps_sites < 1:
+        raise AnalysisError("no cbor2.dumps site found on the encode path (resolver lost them)")
 
 
 def constructors_store_unchanged(ctx):
@@ -430,9 +430,29 @@ def cbstr_rule(ctx):
     ok = len(outs) == 1 and isinstance(outs[0].value, App) and outs[0].value.op == "cbor" \
         and isinstance(outs[0].value.args[0], App) and outs[0].value.args[0].op == "supercall:to_cbor" \
         and len([o for o in ev.outcomes(fi)]) == 1
-    R.check("C02-D4 cbstr one layer", ok, "Cbstr.to_cbor", mod=m, node=fi.node, function=ctx.fq(fi),
-            expected="cbor2.dumps(super().to_cbor()) on every path",
-            found=f"{[repr(o.value)[:120] for o in ev.outcomes(fi)]}")
+    if not ok and len(outs) == 1 and len(ev.outcomes(fi)) == 1:
+        # another way of producing the wrap (a hand-written byte-string head ...): decided by evaluating the result for encoded
+        # contents at the boundaries of the CBOR length widths against the verifier's own encoder
+        from sa import cbor_mini
+        from sa.teval import teval as _teval, Unknown as _Unknown, Raised as _Raised
+        inner = [s_ for s_ in subterms(outs[0].value) if isinstance(s_, App) and s_.op == "supercall:to_cbor"]
+        if inner:
+            bad_ = None
+            try:
+                for n_ in (0, 1, 23, 24, 255, 256, 65535, 65536, 70000):
+                    payload = bytes([0xA5]) * n_
+                    got = _teval(outs[0].value, {inner[0]: payload, **generic.loops_env(outs[0])})
+                    if bytes(got) != cbor_mini.dumps(payload) and bad_ is None:
+                        bad_ = f"content of {n_} bytes: head {bytes(got)[:9].hex()} instead of {cbor_mini.dumps(payload)[:9].hex()}"
+                R.check("C02-D4 cbstr one layer", bad_ is None, "Cbstr.to_cbor on contents of 0 .. 70000 bytes", mod=m, node=fi.node, function=ctx.fq(fi),
+                        expected="the shortest-form byte string holding super().to_cbor(), as cbor2.dumps gives it", found=bad_ or "")
+                ok = None
+            except (_Unknown, _Raised, TypeError, ValueError):
+                ok = False
+    if ok is not None:
+        R.check("C02-D4 cbstr one layer", ok, "Cbstr.to_cbor", mod=m, node=fi.node, function=ctx.fq(fi),
+                expected="cbor2.dumps(super().to_cbor()) on every path",
+                found=f"{[repr(o.value)[:120] for o in ev.outcomes(fi)]}")
     # the decorated class is the base of the wrapper
     bases = [ast.unparse(b) for b in ci.bases]
     outer = ci.outer
